@@ -385,6 +385,26 @@ def sendCoinsUnrestricted (tier : Denom → Bool) (s : State) (f t : Addr) (amt 
     State × Option Fail :=
   sendCore tier s f t amt false
 
+/-- the affordability loop of `auth.DeductFees`: one fee denom at a time, through `GetCoin`. -/
+def feeCheck (tier : Denom → Bool) (s : State) (a : Addr) : Coins → Except Fail Unit
+  | [] => .ok ()
+  | c :: rest =>
+    match getCoin tier s a c.denom with
+    | .error f => .error f
+    | .ok bal => if bal < c.amount then .error (.err "insufficient-funds") else feeCheck tier s a rest
+
+/-- `auth.DeductFees` as the ante handler calls it for the first signer (who must
+have an account: `GetSignerAcc`): validate the fee, check affordability, then
+`SendCoinsUnrestricted` to the fee collector. -/
+def deductFees (tier : Denom → Bool) (s : State) (a collector : Addr) (fees : Coins) : State × Option Fail :=
+  match getAcct s a with
+  | none => (s, some (.err "unknown-address"))
+  | some _ =>
+    if !coinsValid fees then (s, some (.err "insufficient-fee"))
+    else match feeCheck tier s a fees with
+      | .error f => (s, some f)
+      | .ok _ => sendCoinsUnrestricted tier s a collector fees
+
 /-- one side of `ValidateInputsOutputs`: ValidateBasic then `total = total.Add(coins)`. -/
 def validateSide : List (Addr × Coins) → Coins → Except Fail Coins
   | [], tot => .ok tot
@@ -488,8 +508,13 @@ def acctTotal (s : State) (d : Denom) : Int :=
 /-- Σ balances of `d` over both tiers — what `computeSupply` totals. -/
 def total (s : State) (d : Denom) : Int := splitTotal s d + acctTotal s d
 
+/-- keep one occurrence of every element (the map keys of `computeSupply`'s totals). -/
+def dedup : List Denom → List Denom
+  | [] => []
+  | d :: ds => if d ∈ dedup ds then dedup ds else d :: dedup ds
+
 def heldDenoms (s : State) : List Denom :=
-  (s.split.map (fun e => e.1.2) ++ s.accts.flatMap (fun e => e.2.coins.map (·.denom))).eraseDups
+  dedup (s.split.map (fun e => e.1.2) ++ s.accts.flatMap (fun e => e.2.coins.map (·.denom)))
 
 /-- `RecomputeSupply`: rewrite every supply record from what is held; panics when a
 per-denom total does not fit int64. -/
@@ -497,6 +522,20 @@ def recomputeSupply (s : State) : State × Option Fail :=
   if (heldDenoms s).all (fun d => decide (total s d ≤ maxInt64)) then
     ({ s with supply := ((heldDenoms s).map (fun d => (d, total s d))).filter (fun e => e.2 ≠ 0) }, none)
   else (s, some (.panic "recompute"))
+
+/-- the bank-keeper part of InitChainer: `SetCoins` for every genesis balance, then
+`RecomputeSupply` (gnoland's `seedSupply`).  An error aborts genesis. -/
+def setCoinsAll (tier : Denom → Bool) (s : State) : List (Addr × Coins) → State × Option Fail
+  | [] => (s, none)
+  | (a, cs) :: rest =>
+    match setCoins tier s a cs with
+    | (s1, some e) => (s1, some e)
+    | (s1, none) => setCoinsAll tier s1 rest
+
+def genesis (tier : Denom → Bool) (bals : List (Addr × Coins)) : State × Option Fail :=
+  match setCoinsAll tier init bals with
+  | (s1, some e) => (s1, some e)
+  | (s1, none) => recomputeSupply s1
 
 /-! ## administrative operations used by the harness (no coins move) -/
 
@@ -523,7 +562,8 @@ def whitelistOp (s : State) (a : Addr) : State × Option Fail :=
 /-- the ledger operations a committed transaction is made of. -/
 inductive Op where
   | send (f t : Addr) (amt : Coins)                 -- MsgSend, realm banker SendCoins, MsgCall/Run/AddPackage send
-  | sendU (f t : Addr) (amt : Coins)                -- fee payment, storage deposit lock / refund
+  | sendU (f t : Addr) (amt : Coins)                -- storage deposit lock / refund, fee transfer
+  | fee (a collector : Addr) (fees : Coins)         -- ante handler: auth.DeductFees
   | multi (ins outs : List (Addr × Coins))          -- MsgMultiSend
   | mint (a : Addr) (amt : Coins)                   -- realm IssueCoin, genesis signer funding
   | burn (a : Addr) (amt : Coins)                   -- realm RemoveCoin
@@ -537,6 +577,7 @@ deriving Repr
 def rawStep (tier : Denom → Bool) (s : State) : Op → State × Option Fail
   | .send f t amt => sendCoins tier s f t amt
   | .sendU f t amt => sendCoinsUnrestricted tier s f t amt
+  | .fee a c fees => deductFees tier s a c fees
   | .multi ins outs => inputOutput tier s ins outs
   | .mint a amt => mintCoins tier s a amt
   | .burn a amt => burnCoins tier s a amt
